@@ -643,6 +643,13 @@ class Extracted:
     def contract(self, ret=None, spec='', body_prefix='', sig_rewrites=()):
         sig, body = self.fn_parts()
         for (a, b) in sig_rewrites:
+            if hasattr(a, 'sub'):      # a compiled regular expression (e.g. a whole `where` clause, whatever its layout)
+                sig2, k = a.subn(b, sig, count=1)
+                if not k:
+                    raise AnchorLost('%s [%s]: signature anchor %r not found' % (self.file, self.key, a.pattern))
+                sig = sig2
+                self.log('X5', 'signature /%s/ -> %r' % (a.pattern, b))
+                continue
             if a not in sig:
                 raise AnchorLost('%s [%s]: signature anchor %r not found' % (self.file, self.key, a))
             sig = sig.replace(a, b)
